@@ -17,6 +17,9 @@ from oracles import *
 # ------------------------------------------------------------------------------------------------
 def oracle_c12(line, case, stats, allc=None, lines=None):
     """sink protocol + fail-stop, checked on the implementation's own log"""
+    if line.startswith('L3 '):
+        stats['encoded_cases'] = stats.get('encoded_cases', 0) + 1
+        return oracle_c12_l3(case)
     errs = []
     ops = ops_of(line); calls = case['calls']
     stats['cases'] = stats.get('cases', 0) + 1
@@ -177,7 +180,7 @@ PROPS = {
                    'and the non-strict run is decided on pairs of runs. Known finding IntegrationPointNameReuse.',
         level_note='Trusted as C01 plus spec/Whatwg.v and tools/whatwg_ref.py as renderings of the standard.'),
     #'C01': dict(coq=['props/C01.vo'], families=[('l1', 1500, 40000)], projections=['out_bytes'], oracle=oracle_c01),
-    'C12': dict(coq=['props/C12.vo'], families=[('l1', 800, 20000), ('l1fail', 500, 10000), ('l2fail', 500, 10000), ('l2edit', 500, 10000)], projections=['sink_protocol'], oracle=oracle_c12,
+    'C12': dict(coq=['props/C12.vo'], families=[('l1', 800, 20000), ('l1fail', 500, 10000), ('l2fail', 500, 10000), ('l2edit', 500, 10000), ('enc', 500, 10000)], projections=['sink_protocol'], oracle=oracle_c12,
         technique='Coq proof: generic frame theorem over the executable model + invariant over call histories; extraction-based correspondence run',
         level_text='Theorems C12_sink_protocol / C12_finalizing_chunk_iff_successful_end / C12_error_poisons / C12_poisoned_is_inert hold for EVERY transform controller '
                    '(any handlers, failing anywhere), configuration, input and write*/end history of the model: set_encoding first, then only non-empty chunks, one zero-length '
